@@ -80,3 +80,34 @@ func TestC12UnsignedStreamCutAfterChunkSizeIsRejected(t *testing.T) {
 		t.Errorf("stream \"a\\r\\n\" (size line, then nothing): accepted as a complete body of %d bytes; trailer never checked", len(got))
 	}
 }
+
+// C20: a negative chunk size must be refused as malformed, not used as a length (make / slice bound panic that ends
+// the gateway process; the request only needs valid header credentials).
+func TestC20NegativeChunkSizeIsRefused(t *testing.T) {
+	try := func(name string, read func() error) {
+		defer func() {
+			if r := recover(); r != nil {
+				t.Errorf("%s: panic (the gateway process would have died): %v", name, r)
+			}
+		}()
+		if err := read(); err == nil {
+			t.Errorf("%s: accepted", name)
+		}
+	}
+	try("unsigned stream with chunk size -1", func() error {
+		r, err := NewUnsignedChunkReader(bytes.NewReader([]byte("-1\r\nxx\r\n0\r\n\r\n")), checksumTypeCrc32, false)
+		if err != nil {
+			return err
+		}
+		_, err = io.ReadAll(r)
+		return err
+	})
+	try("signed stream with chunk size -1", func() error {
+		r, err := NewSignedChunkReader(bytes.NewReader([]byte("-1;chunk-signature="+c12Seed+"\r\nxxxxxxxx\r\n")), AuthData{Signature: c12Seed}, c12Region, c12Secret, c12Date, "", false)
+		if err != nil {
+			return err
+		}
+		_, err = io.ReadAll(r)
+		return err
+	})
+}
